@@ -253,43 +253,49 @@ def t_lambda_and_key():
     fs = [lambda x, i=i: x + i for i in range(3)]
     return ([f(10) for f in fs], (lambda *a: a)(1, 2), sorted([3, 1, 2], key=lambda v: -v))
 
+class _P_cb:
+    kind = 'p'
+    def __init__(self, x):
+        self.x = x
+    def double(self):
+        return self.x * 2
+    @property
+    def prop(self):
+        return self.x + 1
+    @classmethod
+    def make(cls, v):
+        return cls(v * 10)
+    @staticmethod
+    def helper(v):
+        return v - 1
+
 def t_class_basic():
-    class P:
-        kind = 'p'
-        def __init__(self, x):
-            self.x = x
-        def double(self):
-            return self.x * 2
-        @property
-        def prop(self):
-            return self.x + 1
-        @classmethod
-        def make(cls, v):
-            return cls(v * 10)
-        @staticmethod
-        def helper(v):
-            return v - 1
-    p = P(3)
-    q = P.make(2)
-    return (p.x, p.double(), p.prop, q.x, P.helper(5), p.helper(6), p.kind)
+    p = _P_cb(3)
+    q = _P_cb.make(2)
+    return (p.x, p.double(), p.prop, q.x, _P_cb.helper(5), p.helper(6), p.kind)
+
+class _A_ci:
+    def who(self):
+        return '_A_ci'
+    def call(self):
+        return self.who()
+class _B_ci(_A_ci):
+    def who(self):
+        return '_B_ci'
 
 def t_class_inherit():
-    class A:
-        def who(self):
-            return 'A'
-        def call(self):
-            return self.who()
-    class B(A):
-        def who(self):
-            return 'B'
-    return (A().call(), B().call(), isinstance(B(), A), isinstance(A(), B))
+    return (_A_ci().call(), _B_ci().call(), isinstance(_B_ci(), _A_ci), isinstance(_A_ci(), _B_ci))
+
+class _C_gh:
+    def __init__(self):
+        self.a = 1
 
 def t_getattr_hasattr():
-    class C:
-        def __init__(self):
-            self.a = 1
-    c = C()
+    c = _C_gh()
     return (getattr(c, 'a'), getattr(c, 'b', 'dflt'), hasattr(c, 'a'), hasattr(c, 'b'))
+
+class _O_aa:
+    pass
 
 def t_augassign_targets():
     d = {'a': 1}
@@ -299,9 +305,7 @@ def t_augassign_targets():
     l += [9]
     s = 'a'
     s += 'b'
-    class O:
-        pass
-    o = O()
+    o = _O_aa()
     o.v = 1
     o.v += 2
     return (d, l, s, o.v)
@@ -345,16 +349,19 @@ def t_walrus_and_starred_call():
     out.append({**{'a': 1}, 'b': 2, **{'a': 3}})
     return out
 
+class _CM_ws:
+    def __init__(self, log):
+        self.log = log
+    def __enter__(self):
+        self.log.append('enter')
+        return 5
+    def __exit__(self, *a):
+        self.log.append('exit')
+        return False
+
 def t_with_statement():
     log = []
-    class CM:
-        def __enter__(self):
-            log.append('enter')
-            return 5
-        def __exit__(self, *a):
-            log.append('exit')
-            return False
-    with CM() as v:
+    with _CM_ws(log) as v:
         log.append(v)
     return log
 
